@@ -21,8 +21,8 @@ func init() {
 	props["C20"] = propInfo{
 		Engine: "netsim", Race: false, Level: "fault_enumeration",
 		QuickRuns: 6 * 40, ThoroughRuns: 6 * 1500, QuickSecs: 600, ThoroughSecs: 2 * 3600, Chunk: 12, Group: 6,
-		Rule:      "a run is (argument draw, slice): for each of the 26 exported calls four sets of arguments (ids up to MaxInt64, id lists with repeats, versions, bounding boxes with 0/6/7 decimals, composed search strings that need escaping, 0-2 At options in three time zones, notes options in both orders incl. boundary and invalid limits) and response content seeds come from the choice tape (a cell picks one set by its coordinates); then the complete table 26 calls x 3 call forms {method on a Datasource with its own Client, package-level function, method on a Datasource with Client nil that inherits osmapi.DefaultDatasource.Client} x 27 statuses {200; 201,202,203,204,206,300,304 and 301,302,307 without a Location header, all of which net/http hands to the caller unchanged; 400,401,403,404,405,409,410,412,414,429,500,501,502,503,504,509} x 6 response shapes {0,1,many own elements} x {alone, mixed with elements of other kinds} x 4 limiter modes {none, grants after d, refuses, context cancelled while waiting} x {default, custom base URL} = 101088 cells is enumerated, the 6 runs that share a tape executing disjoint slices. Cells with a limiter execute inside a testing/synctest bubble (fake clock), 256 cells per bubble. Every cell is one call = one execution; non-trivial = a fault is injected (status != 200 and/or a limiter event); distinct = distinct (argument draw, cell, request history)",
-		Probes:    []string{"status-200-decoded", "non-200-status-below-400-rejected", "single-element-call-rejected-wrong-count", "invalid-notes-limit-rejected", "request-carried-the-callers-context", "request-through-inherited-default-client", "limiter-waited-with-inherited-client"},
+		Rule:      "a run is (argument draw, slice): for each of the 26 exported calls four sets of arguments (ids up to MaxInt64, id lists with repeats, versions, bounding boxes with 0/6/7 decimals, composed search strings that need escaping, 0-2 At options in three time zones, notes options in both orders incl. boundary and invalid limits) and response content seeds come from the choice tape (a cell picks one set by its coordinates); then the complete table 26 calls x 3 call forms {method on a Datasource with its own Client, package-level function, method on a Datasource with Client nil that inherits osmapi.DefaultDatasource.Client} x 27 statuses {200; 201,202,203,204,206,300,304 and 301,302,307 without a Location header, all of which net/http hands to the caller unchanged; 400,401,403,404,405,409,410,412,414,429,500,501,502,503,504,509} x 6 response shapes {0,1,many own elements} x {alone, mixed with elements of other kinds} x 4 limiter modes {none, grants after d, refuses, context cancelled while waiting} x {default base URL, custom base URL: one of three by the cell's coordinates, two of them with percent escapes (%20, %2F) in the path} = 101088 cells is enumerated, the 6 runs that share a tape executing disjoint slices. Cells with a limiter execute inside a testing/synctest bubble (fake clock), 256 cells per bubble. Every cell is one call = one execution; non-trivial = a fault is injected (status != 200 and/or a limiter event); distinct = distinct (argument draw, cell, request history)",
+		Probes:    []string{"status-200-decoded", "non-200-status-below-400-rejected", "single-element-call-rejected-wrong-count", "invalid-notes-limit-rejected", "request-carried-the-callers-context", "request-through-inherited-default-client", "limiter-waited-with-inherited-client", "base-url-with-percent-escapes"},
 		Real:      netReal,
 		Simulated: []string{"the OSM API server as an in-process http.RoundTripper: status, hand-written XML documents of node/way/relation/changeset/note/user elements, osmChange documents", "the RateLimiter (delay, refusal, wait ended by context cancellation) and the cancelling goroutine on testing/synctest's fake clock"},
 		Assumptions: []string{
